@@ -2,7 +2,7 @@
    without reference point return for every k <= n. *)
 From Coq Require Import List ZArith Lia Bool Arith Permutation Sorted.
 From SharkV Require Import ListAux C13Model C13Proofs C13ProofsFast C13ProofsContrib C13Wfg C13WfgProofs C13Disp C13DispProofs.
-From SharkV Require Import C13Dc C13DcProofs C13ContribMd C13ContribMdProofs C13Contrib3d C13Contrib3dProofs C13ContribNoref.
+From SharkV Require Import C13Dc C13DcAuxProofs C13DcProofs C13ContribMd C13ContribMdProofs C13Contrib3d C13Contrib3dProofs C13ContribNoref.
 Import ListNotations.
 Local Open Scope Z_scope.
 
@@ -185,8 +185,7 @@ Proof.
   - inversion H; subst. auto.
   - cbn [fst snd] in H. destruct (take_index m rest) as [[e r1]|] eqn:E.
     + rewrite (IH _ _ _ _ H). rewrite (take_index_perm m rest e r1 E).
-      rewrite app_assoc. rewrite <- Permutation_cons_append. cbn [app].
-      apply Permutation_sym. apply Permutation_middle.
+      rewrite app_assoc. rewrite <- Permutation_cons_append. cbn [app]. reflexivity.
     + apply (IH _ _ _ _ H).
 Qed.
 
@@ -202,7 +201,7 @@ Proof.
   intros HP. split; [|split].
   - apply (Permutation_NoDup (l := seq 0 (length S))); [|apply seq_NoDup].
     symmetry. rewrite HP. rewrite map_snd_combine; auto. now rewrite contribs_spec_length, seq_length.
-  - rewrite (Permutation_length HP), combine_length, contribs_spec_length, seq_length. lia.
+  - rewrite (Permutation_length HP). etransitivity; [apply combine_length|]. rewrite contribs_spec_length, seq_length. lia.
   - intros v i Hin. apply (Permutation_in _ HP) in Hin. unfold contribs_spec in Hin. rewrite combine_map_self in Hin.
     apply in_map_iff in Hin. destruct Hin as [j [E Hj]]. inversion E; subst. apply in_seq in Hj. split; [lia|reflexivity].
 Qed.
@@ -224,7 +223,7 @@ Proof.
   destruct (entries_of_spec iref S _ HPall) as [N1 [N2 N3]].
   destruct (sel_append_props largest rest ext k N1) as [R1 [R2 R3]].
   { rewrite <- app_length. unfold kv in *. lia. }
-  cbv zeta in R1, R2, R3. split; auto. split; auto. intros v i Hin. apply N3. apply R3. exact Hin.
+  cbv zeta in R1, R2, R3. split; [exact R1|]. split; [exact R2|]. intros v i Hin. apply N3. apply R3. exact Hin.
 Qed.
 
 (* ---------------------------------------------------------------------------------------- *)
@@ -280,18 +279,11 @@ Lemma sort_uniq_nat_spec l : NoDup (sort_uniq_nat l) /\ forall x, In x (sort_uni
 Proof.
   unfold sort_uniq_nat.
   assert (HS : StronglySorted le (fold_right insert_nat [] l)).
-  { induction l as [|v l IH]; cbn [fold_right]; [constructor|]. now apply insert_nat_sorted. }
+  { induction l as [|v l' IH]; cbn [fold_right]; [constructor|]. now apply insert_nat_sorted. }
   assert (HP : Permutation (fold_right insert_nat [] l) l).
-  { induction l as [|v l IH]; cbn [fold_right]; auto. rewrite insert_nat_perm. constructor. apply IH.
-    clear -HS. cbn [fold_right] in HS. (* sortedness of the tail *)
-    assert (G : forall v l, StronglySorted le (insert_nat v l) -> StronglySorted le l).
-    { intros v0 l0. induction l0 as [|w t IHt]; intros H; [constructor|]. cbn [insert_nat] in H.
-      destruct (v0 <=? w)%nat; [apply StronglySorted_inv in H; tauto|].
-      apply StronglySorted_inv in H. destruct H as [H1 H2]. constructor; [apply IHt; auto|].
-      rewrite Forall_forall in *. intros x Hx. apply H2. eapply Permutation_in; [symmetry; apply insert_nat_perm|]. now right. }
-    apply (G v). auto. }
+  { clear HS. induction l as [|v l' IH]; cbn [fold_right]; auto. rewrite insert_nat_perm. now constructor. }
   destruct (uniq_nat_spec _ HS) as [A [B _]]. split.
-  - clear -A. induction A as [|x l HSl IH HF]; constructor; auto. rewrite Forall_forall in HF.
+  - clear -A. induction A as [|x l0 HSl IH HF]; constructor; auto. rewrite Forall_forall in HF.
     intros Hc. specialize (HF x Hc). lia.
   - intros x. rewrite B. split; intros H; [eapply Permutation_in; eauto|eapply Permutation_in; [symmetry; eauto|auto]].
 Qed.
@@ -327,7 +319,7 @@ Proof.
   assert (Hcm : forall i, (i < length S)%nat -> cm i = contrib_spec iref S i).
   { intros i Hi. unfold cm. apply contrib_md_correct; auto.
     - intros L HL. apply (nds_front_eq_rank_list (length iref)); auto. lia.
-    - intros S' HB'. rewrite Hl in *. destruct Hh as [Hh|Hh]; [apply hv_dispatch_correct; auto; lia|apply hv_dispatch_correct_all; auto]. }
+    - intros S' HB'. destruct Hh as [Hh|Hh]; [apply hv_dispatch_correct; auto; lia|apply hv_dispatch_correct_all; auto]. }
   assert (Hmi : forall x, In x mi -> (x < length S)%nat).
   { intros x Hx. unfold mi, min_indices in Hx. apply in_map_iff in Hx. destruct Hx as [j [<- _]]. apply min_index_lt. auto. }
   set (cand := filter (fun i => negb (existsb (Nat.eqb i) mi)) (seq 0 (length S))).
@@ -339,7 +331,7 @@ Proof.
   { intros i. rewrite existsb_exists. split; [intros [x [H1 H2]]; apply Nat.eqb_eq in H2; now subst|intros H; exists i; split; auto; apply Nat.eqb_refl]. }
   assert (Hcand : forall i, In i cand <-> (i < length S)%nat /\ ~ In i mi).
   { intros i. unfold cand. rewrite filter_In, in_seq, negb_true_iff. rewrite <- Hin_mi.
-    destruct (existsb (Nat.eqb i) mi); split; intros [H1 H2]; split; auto; try lia; try congruence. exfalso. apply H2. auto. }
+    destruct (existsb (Nat.eqb i) mi); split; intros [H1 H2]; split; auto; try lia; try congruence. }
   assert (Psnd : Permutation (map snd (res ++ ext)) (cand ++ um)).
   { rewrite map_app. apply Permutation_app.
     - unfold res. rewrite sort_kvi_perm. rewrite map_map. cbn [snd]. rewrite map_id. auto.
@@ -357,7 +349,7 @@ Proof.
   destruct (sel_append_props largest res ext k) as [R1 [R2 R3]].
   { apply (Permutation_NoDup (l := cand ++ um)); auto. symmetry. exact Psnd. }
   { unfold res, ext. rewrite (Permutation_length (sort_kvi_perm _)), !map_length. lia. }
-  cbv zeta in R1, R2, R3. split; auto. split; auto.
+  cbv zeta in R1, R2, R3. split; [exact R1|]. split; [exact R2|].
   intros v i Hin. apply R3 in Hin. apply in_app_or in Hin.
   destruct Hin as [Hin|Hin].
   - unfold res in Hin. apply (Permutation_in _ (sort_kvi_perm _)) in Hin. apply in_map_iff in Hin.
